@@ -153,3 +153,29 @@ Theorem C09_decode_encode :
     feed unmarshal None 0 (e_frames e) = Ok ([(length atts, (e_header e, name, p :: atts))], None) /\
     decode marshal unmarshal (e_header e) (p :: atts) tys = Ok (views tys sargs).
 Proof. exact decode_encode_event. Qed.
+
+(** The same for ACK packets with binary (no event name, no pre-scan: H2 is not needed). *)
+Theorem C09_decode_encode_ack :
+  forall (marshal : jv -> bytes) (unmarshal : bytes -> option jv) (max_att : Z),
+  (forall j, unmarshal (marshal j) = Some j) ->
+  (forall name rest, exists tmp, prescan (marshal (JArr (JStr name :: rest))) = Ok tmp /\
+                                 unmarshal tmp = Some (JArr [JStr name])) ->
+  (forall l, exists r, marshal (JArr l) = 91%N :: r) ->
+  forall h x e tys sargs,
+  wfv x = true -> h_type h = 3%N -> hb 2 x = true ->
+  shape x = BArr sargs -> args_ok tys sargs = true ->
+  header_ok (e_header e) ->
+  encode marshal unmarshal max_att h (Some x) = Ok e ->
+  exists p atts,
+    e_frames e = (encode_header (e_header e) ++ p) :: atts /\
+    atts = leaves (shape x) /\
+    e_header e = mkHeader 6 (h_nsp h) (h_id h) (Z.of_nat (length atts)) /\
+    feed unmarshal None 0 (e_frames e) = Ok ([(length atts, (e_header e, [], p :: atts))], None) /\
+    decode marshal unmarshal (e_header e) (p :: atts) tys = Ok (views tys sargs).
+Proof. exact decode_encode_ack. Qed.
+
+(** H3 holds for the instance [jprint] (H1 is proved for integers only, C09_json_int_roundtrip;
+    H1 for strings / arrays / objects and H2 are validated against encoding/json by the json and
+    codec suites of the check, not proved). *)
+Theorem C09_H3_jprint : forall l, exists r, jprint (JArr l) = 91%N :: r.
+Proof. exact jprint_arr_head. Qed.
